@@ -252,11 +252,11 @@ func checkC03(c CaseC03, info *Info) *Failure {
 	if c.GoEmpty {
 		mxj.XmlGoEmptyElemSyntax()
 	}
+	bystanders()
 	if c.PreFail {
 		failingEncodes()
 		info.Class("after failing encoder calls")
 	}
-	bystanders()
 	var x []byte
 	var err error
 	var root *XElem
